@@ -35,8 +35,9 @@ CellsOf(sl) ==
      ci \in 0..3, ch \in ChOf(sl), cdv \in [1..NInf(sl) -> BOOLEAN], al \in BOOLEAN}
 Cells == UNION {CellsOf(sl) : sl \in Shapes}
 
-Scripts == [cur : BOOLEAN, seg : BOOLEAN, nxt : BOOLEAN]
 Ops == {"ing_int", "ing_ext", "egr"}
+ScriptList == <<[cur |-> TRUE, seg |-> TRUE, nxt |-> TRUE], [cur |-> FALSE, seg |-> TRUE, nxt |-> TRUE],
+                [cur |-> TRUE, seg |-> FALSE, nxt |-> TRUE], [cur |-> TRUE, seg |-> TRUE, nxt |-> FALSE]>>
 
 Apply(q, op, v) ==
   LET VH(idx, hop, inf, st, en) == IF idx = q.ch THEN v.cur ELSE v.nxt
@@ -55,7 +56,8 @@ Call(op, v) ==
        /\ moves' = IF r.k # "err" /\ r.p.ch # p.ch THEN moves + 1 ELSE moves
   /\ n' = n + 1 /\ UNCHANGED ch0
 
-Next == \E op \in Ops, v \in Scripts : Call(op, v)
+\* the four validator scripts that are also replayed: all accept / one of the three consulted checks rejects
+Next == \E op \in Ops, s \in 1..4 : Call(op, ScriptList[s])
 Spec == Init /\ [][Next]_vars
 
 (* ------------------------------- P-layer ----------------------------------- *)
@@ -69,8 +71,6 @@ XoverForwardStep == [][lastop' \in {"ing_int", "ing_ext"} => XoverForward(p, Res
 Bounded == moves > 0 => (p.ch = ch0 + moves /\ p.ch <= Total(p.sl) - 1 /\ moves <= Total(p.sl) - 1)
 
 (* ------------------------------ generation --------------------------------- *)
-ScriptList == <<[cur |-> TRUE, seg |-> TRUE, nxt |-> TRUE], [cur |-> FALSE, seg |-> TRUE, nxt |-> TRUE],
-                [cur |-> TRUE, seg |-> FALSE, nxt |-> TRUE], [cur |-> TRUE, seg |-> TRUE, nxt |-> FALSE]>>
 Ids(s) == [i \in 1..Len(s) |-> s[i].id]
 SidJ(s) == [i \in 1..Len(s) |-> s[i].sid]      \* sets of hop ids accumulated
 CallsJ(cs) == [i \in 1..Len(cs) |-> [f |-> cs[i].f, idx |-> cs[i].idx, sid |-> cs[i].sid, start |-> cs[i].start, end |-> cs[i].end]]
